@@ -1,11 +1,12 @@
 /-
-  C14 / C06 — the shutdown window.  `clean_stop_window`: whatever lines the pump still handles while
-  stop() runs, and wherever they fall relative to stop()'s two actions, every change whose reply
-  went out on the wire is in the file when stop() is done — because the connection is taken down
-  before the final save.  `reversed_order_loses` shows the order matters (the save-then-disconnect
-  variant hands out a change that is not in the file).  The harness ties `StopOrder.script` to the
-  code by recording the order of `transport.disconnect` and `persistence.save_sensors` inside the
-  real `stop()` of both flavours, and by handling a real line at the moment of the disconnect.
+  C14 / C06 — the shutdown window and the dirty flag.  `clean_stop_window`: whatever lines the pump
+  handles before and while stop() runs, whatever periodic saves ran (or were still running a moment)
+  before, every change whose reply went out on the wire is in the file when stop() is done — because
+  the connection is taken down before the final save, and because `need_save` is cleared before the
+  snapshot is taken, never after.  `reversed_order_loses` and `late_clear_loses` show that both
+  orders matter.  The harness ties the model to the code by recording the order of
+  `transport.disconnect` and `persistence.save_sensors` inside the real `stop()` of both flavours and
+  by handling real id requests at every one of the places the model distinguishes (harness/stopwin.py).
 -/
 import MySensors.Model.StopOrder
 
@@ -18,68 +19,133 @@ theorem window_run_append (s : St) (a b : List Ev) : run s (a ++ b) = run (run s
   | nil => rfl
   | cons e a ih => simp [run, ih]
 
-/-- after the final save: nothing is connected, nothing more is handed out -/
-theorem window_phase2 (evs : List Ev) (s : St) (hc : s.connected = false) (hs : ∀ c ∈ s.handed, c ∈ s.file)
-    (ha : stopActions evs = []) : ∀ c ∈ (run s evs).handed, c ∈ (run s evs).file := by
+theorem step_saveEnd_some (s : St) (k : List Nat) (h : s.snap = some k) :
+    step s .saveEnd = { s with file := k, snap := none } := by
+  simp only [step]; rw [h]
+
+theorem step_saveEnd_none (s : St) (h : s.snap = none) : step s .saveEnd = s := by
+  simp only [step]; rw [h]
+
+/-- what every reachable state satisfies: replies went out only for changes made in memory, and when
+    the network is marked saved every change is in the snapshot being written, or in the file -/
+structure Inv (s : St) : Prop where
+  handed : ∀ c ∈ s.handed, c ∈ s.known
+  clean : s.dirty = false → ∀ c ∈ s.known, c ∈ s.snap.getD s.file
+
+theorem inv_step (s : St) (e : Ev) (h : Inv s) : Inv (step s e) := by
+  cases e with
+  | proc c =>
+    refine ⟨?_, by simp [step]⟩
+    intro x hx
+    simp only [step] at hx ⊢
+    split at hx
+    · rcases List.mem_cons.mp hx with rfl | h'
+      · exact List.mem_cons_self
+      · exact List.mem_cons_of_mem _ (h.handed x h')
+    · exact List.mem_cons_of_mem _ (h.handed x hx)
+  | disconnect => exact ⟨by simpa [step] using h.handed, by simpa [step] using h.clean⟩
+  | saveStart =>
+    simp only [step]
+    split
+    · exact h
+    · split
+      · exact ⟨by simpa using h.handed, by simp⟩
+      · exact h
+  | saveEnd =>
+    simp only [step]
+    split
+    · rename_i k hk
+      exact ⟨by simpa using h.handed, by intro hd c hc; simpa [hk] using h.clean hd c hc⟩
+    · exact h
+
+theorem inv_run (evs : List Ev) (s : St) (h : Inv s) : Inv (run s evs) := by
   induction evs generalizing s with
-  | nil => simpa [run] using hs
-  | cons e evs ih =>
-    cases e with
-    | proc c => exact ih (step s (.proc c)) (by simp [step, hc]) (by simpa [step, hc] using hs) (by simpa [stopActions] using ha)
-    | disconnect => simp [stopActions] at ha
-    | save => simp [stopActions] at ha
+  | nil => exact h
+  | cons e evs ih => exact ih _ (inv_step s e h)
 
-/-- between the disconnect and the save: handed ⊆ known and the connection is down -/
-theorem window_phase1 (evs : List Ev) (s : St) (hc : s.connected = false) (hs : ∀ c ∈ s.handed, c ∈ s.known)
-    (ha : stopActions evs = [.save]) : ∀ c ∈ (run s evs).handed, c ∈ (run s evs).file := by
+/-- pump work after the disconnect hands nothing out and touches neither the file nor a running save -/
+theorem procs_offline (evs : List Ev) (hp : OnlyProc evs) (s : St) (hc : s.connected = false) :
+    (run s evs).handed = s.handed ∧ (run s evs).file = s.file ∧ (run s evs).snap = s.snap ∧
+    (run s evs).connected = false ∧ (∀ c ∈ s.known, c ∈ (run s evs).known) := by
   induction evs generalizing s with
-  | nil => simp [stopActions] at ha
+  | nil => exact ⟨rfl, rfl, rfl, hc, fun _ h => h⟩
   | cons e evs ih =>
-    cases e with
-    | proc c =>
-      refine ih (step s (.proc c)) (by simp [step, hc]) ?_ (by simpa [stopActions] using ha)
-      intro x hx
-      simp only [step, hc] at hx ⊢
-      exact List.mem_cons_of_mem _ (hs x (by simpa using hx))
-    | disconnect => simp [stopActions] at ha
-    | save =>
-      simp only [stopActions, List.cons.injEq, true_and] at ha
-      exact window_phase2 evs (step s .save) (by simp [step, hc]) (by simpa [step] using hs) ha
+    obtain ⟨c, rfl⟩ := hp e (by simp)
+    obtain ⟨h1, h2, h3, h4, h5⟩ := ih (fun e he => hp e (by simp [he])) (step s (.proc c)) (by simp [step, hc])
+    refine ⟨by simpa [run, step, hc] using h1, by simpa [run, step] using h2, by simpa [run, step] using h3, h4, ?_⟩
+    intro x hx
+    exact h5 x (by simp [step, hx])
 
-/-- **the shutdown window is safe**: for every schedule in which stop() performs `disconnect` and then
-    `save` (pump work anywhere before, between and after), every change handed out is in the file. -/
-theorem clean_stop_window (evs : List Ev) (s : St) (hs : ∀ c ∈ s.handed, c ∈ s.known)
-    (ha : stopActions evs = script) : ∀ c ∈ (run s evs).handed, c ∈ (run s evs).file := by
-  induction evs generalizing s with
-  | nil => simp [stopActions, script] at ha
-  | cons e evs ih =>
-    cases e with
-    | proc c =>
-      refine ih (step s (.proc c)) ?_ (by simpa [stopActions] using ha)
-      intro x hx
-      simp only [step] at hx ⊢
-      split at hx
-      · rcases List.mem_cons.mp hx with h | h
-        · subst h; exact List.mem_cons_self
-        · exact List.mem_cons_of_mem _ (hs x h)
-      · exact List.mem_cons_of_mem _ (hs x hx)
-    | disconnect =>
-      simp only [stopActions, script, List.cons.injEq, true_and] at ha
-      exact window_phase1 evs (step s .disconnect) (by simp [step]) (by simpa [step] using hs) ha
-    | save => simp [stopActions, script] at ha
+/-- **the shutdown window is safe**: let anything at all happen first (`pre`: lines, periodic saves,
+    complete or not), then stop() — disconnect, final save — with pump work before the final save
+    (`mid`), while it writes (`w`) and after it (`post`); if no earlier save is still running when the
+    final one starts, every change handed out is in the file at the end. -/
+theorem clean_stop_window (pre mid w post : List Ev) (s : St) (hinv : Inv s)
+    (hmid : OnlyProc mid) (hw : OnlyProc w) (hpost : OnlyProc post)
+    (hidle : (run s (pre ++ .disconnect :: mid)).snap = none) :
+    let fin := run s (pre ++ .disconnect :: mid ++ .saveStart :: w ++ .saveEnd :: post)
+    ∀ c ∈ fin.handed, c ∈ fin.file := by
+  intro fin
+  have e1 : fin = run (step (run (step (run s (pre ++ .disconnect :: mid)) .saveStart) w) .saveEnd) post := by
+    simp only [fin, window_run_append, run, List.append_assoc, List.cons_append]
+  -- the state when the final save starts
+  have hI := inv_run (pre ++ .disconnect :: mid) s hinv
+  have hoff : (run s (pre ++ .disconnect :: mid)).connected = false := by
+    rw [window_run_append]
+    exact (procs_offline mid hmid (step (run s pre) .disconnect) (by simp [step])).2.2.2.1
+  generalize run s (pre ++ .disconnect :: mid) = s1 at hI hoff hidle e1
+  by_cases hd : s1.dirty = true
+  · -- the final save writes a snapshot of everything known now
+    have hs2 : step s1 .saveStart = { s1 with dirty := false, snap := some s1.known } := by
+      simp [step, hidle, hd]
+    obtain ⟨a1, a2, a3, a4, _⟩ := procs_offline w hw (step s1 .saveStart) (by simp [hs2, hoff])
+    have hsnap : (run (step s1 .saveStart) w).snap = some s1.known := by rw [a3, hs2]
+    have hs3 := step_saveEnd_some _ _ hsnap
+    obtain ⟨b1, b2, _, _, _⟩ := procs_offline post hpost (step (run (step s1 .saveStart) w) .saveEnd)
+      (by simp [hs3, a4])
+    intro c hc
+    rw [e1, b1, hs3] at hc
+    rw [e1, b2, hs3]
+    simp only at hc ⊢
+    rw [a1, hs2] at hc
+    exact hI.handed c hc
+  · -- nothing is marked unsaved: the file already holds everything known
+    have hd' : s1.dirty = false := by simpa using hd
+    have hs2 : step s1 .saveStart = s1 := by simp [step, hidle, hd']
+    obtain ⟨a1, a2, a3, a4, _⟩ := procs_offline w hw s1 hoff
+    have hsnap : (run s1 w).snap = none := by rw [a3, hidle]
+    have hs3 := step_saveEnd_none _ hsnap
+    obtain ⟨b1, b2, _, _, _⟩ := procs_offline post hpost (run s1 w) a4
+    intro c hc
+    rw [e1, hs2, hs3, b1, a1] at hc
+    rw [e1, hs2, hs3, b2, a2]
+    have := hI.clean hd' c (hI.handed c hc)
+    simpa [hidle] using this
 
-/-- the hypothesis is met by the code's own order with pump work in all three places -/
-example : stopActions [.proc 1, .disconnect, .proc 2, .save, .proc 3] = script := by decide
+/-- the initial state of a fresh gateway satisfies the invariant -/
+theorem inv_init : Inv {} := ⟨by simp, by simp⟩
 
-example : (run {} [.proc 1, .disconnect, .proc 2, .save, .proc 3]).handed = [1] ∧
-    (run {} [.proc 1, .disconnect, .proc 2, .save, .proc 3]).file = [2, 1] := by decide
+/-- the hypotheses are met by a concrete busy schedule: a periodic save with a line handled while it
+    writes, then stop() with pump work in all three places -/
+example :
+    let pre := [Ev.proc 1, .saveStart, .proc 2, .saveEnd]
+    (run {} (pre ++ .disconnect :: [Ev.proc 3])).snap = none ∧
+    (run {} (pre ++ .disconnect :: [Ev.proc 3] ++ .saveStart :: [Ev.proc 4] ++ .saveEnd :: [Ev.proc 5])).handed = [2, 1] ∧
+    (run {} (pre ++ .disconnect :: [Ev.proc 3] ++ .saveStart :: [Ev.proc 4] ++ .saveEnd :: [Ev.proc 5])).file = [3, 2, 1] := by
+  decide
 
-/-- **the order matters**: with the final save before the disconnect, a line handled in between is
-    answered but not saved. -/
+/-- **the order inside stop() matters**: with the final save before the disconnect, a line handled in
+    between is answered but not saved. -/
 theorem reversed_order_loses :
-    ∃ evs, stopActions evs = [.save, .disconnect] ∧
-      ∃ c ∈ (run {} evs).handed, c ∉ (run {} evs).file :=
-  ⟨[.save, .proc 7, .disconnect], by decide, 7, by decide, by decide⟩
+    ∃ evs, ∃ c ∈ (run {} evs).handed, c ∉ (run {} evs).file :=
+  ⟨[.saveStart, .saveEnd, .proc 7, .disconnect], 7, by decide, by decide⟩
+
+/-- **when the flag is cleared matters**: if `need_save` is cleared after the file is swapped in
+    instead of before the snapshot is taken, a line handled while a periodic save writes is answered,
+    marked saved, and never written — not even by stop(). -/
+theorem late_clear_loses :
+    ∃ evs, (∃ pre, evs = pre ++ script) ∧ ∃ c ∈ (runLate {} evs).handed, c ∉ (runLate {} evs).file :=
+  ⟨[.proc 1, .saveStart, .proc 2, .saveEnd] ++ script, ⟨_, rfl⟩, 2, by decide, by decide⟩
 
 /-- nothing is handed out after the disconnect, whatever else happens -/
 theorem nothing_handed_after_disconnect (evs : List Ev) (s : St) (hc : s.connected = false) :
@@ -87,9 +153,23 @@ theorem nothing_handed_after_disconnect (evs : List Ev) (s : St) (hc : s.connect
   induction evs generalizing s with
   | nil => rfl
   | cons e evs ih =>
-    cases e with
-    | proc c => simpa [run, step, hc] using ih (step s (.proc c)) (by simp [step, hc])
-    | disconnect => simpa [run, step] using ih (step s .disconnect) (by simp [step])
-    | save => simpa [run, step] using ih (step s .save) (by simp [step, hc])
+    have hboth : (step s e).connected = false ∧ (step s e).handed = s.handed := by
+      cases e with
+      | proc c => simp [step, hc]
+      | disconnect => simp [step]
+      | saveStart =>
+        simp only [step]
+        split
+        · exact ⟨hc, rfl⟩
+        · split
+          · exact ⟨hc, rfl⟩
+          · exact ⟨hc, rfl⟩
+      | saveEnd =>
+        simp only [step]
+        split
+        · exact ⟨hc, rfl⟩
+        · exact ⟨hc, rfl⟩
+    obtain ⟨hc', hh⟩ := hboth
+    simpa [run, hh] using ih (step s e) hc'
 
 end MySensors.C14
